@@ -40,6 +40,9 @@ use calendars::{
 };
 
 pub mod fx;
+
+#[cfg(feature = "verif_hooks")]
+pub mod verif_hooks;
 use fx::rates::ccy::Ccy;
 use fx::rates::{FXRate, FXRates};
 
